@@ -750,7 +750,10 @@ func (env *specEnv) call(e *Expr) specVal {
 		var xs []specVal
 		for i, a := range args {
 			x := env.tr(a)
-			want := env.quantSort(g.PSorts[i])
+			// parameter types are written in the vocabulary's own package
+			genv := env.child()
+			genv.pkg = vc.pkgByShort(g.Pkg)
+			want := genv.quantSort(g.PSorts[i])
 			if x.Nil {
 				x = env.nilOf(want)
 			}
@@ -771,7 +774,9 @@ func (env *specEnv) call(e *Expr) specVal {
 		if g.Body != nil {
 			return env.expandPure(g, xs)
 		}
-		rs := env.quantSort(g.RSort)
+		renv := env.child()
+		renv.pkg = vc.pkgByShort(g.Pkg)
+		rs := renv.quantSort(g.RSort)
 		t := g.smtName()
 		if len(ts) > 0 {
 			t = "(" + g.smtName() + " " + strings.Join(ts, " ") + ")"
